@@ -18,6 +18,11 @@ from . import clock
 
 locks.install()
 clock.install()
+# sourcer itself is imported as code of the system under test: a lock that its modules (the shipped, generated
+# meta-parser included) create at import time is a simulated lock
+with locks.sut():
+    import sourcer                  # noqa: F401,E402
+    import sourcer.parser           # noqa: F401,E402
 
 PREFIX = 'vx'                 # every grammar name used by the simulator starts with this
 REF_BUDGET = 150_000          # steps a reference operation may take before it is 'nontermination'
